@@ -74,6 +74,7 @@ func (v *IndexVamana) greedySearch(query []float32, k int, searchSize int, filte
 		searchSet.items[i].visited = true
 		// ---------------------------
 		// Get the node and its neighbours
+		verifYield("greedySearch.visit")
 		node, err := v.nodeStore.Get(distElem.Point.Id())
 		if err != nil {
 			return searchSet, visitedSet, fmt.Errorf("failed to get node for neighbours: %w", err)
